@@ -112,6 +112,12 @@ impl<'a> StatementEvaluator<'a> {
                     }
                     Token::Else => {
                         self.evaluate_statement_or_goto_line_number()?;
+                        if self.program().peek_next_token() == Some(Token::Else) {
+                            // A further ELSE belongs to an enclosing IF whose
+                            // THEN clause we are in: skip it, and anything else
+                            // on this line, as the THEN path above does.
+                            self.program().discard_remaining_tokens();
+                        }
                         return Ok(());
                     }
                     _ => {}
